@@ -290,3 +290,14 @@ func factsOf(cond *Sym, taken bool, pos token.Pos, idx int) []Fact {
 	}
 	return []Fact{{Op: token.EQL, X: cond, Y: symBool(taken), Pos: pos, Idx: idx}}
 }
+
+// mentions2 reports whether s contains a fresh symbol of the given name (e.g. a loop-carried variable).
+func (s *Sym) mentions2(name string) bool {
+	found := false
+	s.walk(func(x *Sym) {
+		if x.Kind == KFresh && x.Name == name {
+			found = true
+		}
+	})
+	return found
+}
